@@ -208,3 +208,126 @@ def gen_class_with_init(rng, name="C_target", style=None):
     for l in f.src.rstrip("\n").split("\n"):
         lines.append("    " + l)
     return FuncSpec(src="\n".join(lines) + "\n", init=f, name=name, cvars=cvars)
+
+
+# ------------------------------------------------------------------------------ modules
+MOD_NAMES = ["alpha", "beta", "gamma", "delta", "omega", "kappa", "sigma", "theta"]
+CLS_NAMES = ["A", "B", "Config", "Model", "Trainer", "Inner", "Deep"]
+FN_NAMES = ["f", "g", "helper", "train", "build", "run_it"]
+ARG_NAMES = ["a", "b", "q", "lr", "epochs", "name", "size"]
+
+
+def _fn_src(rng, name, first=None, indent=0, arg_pool=None, marker=None):
+    pool = arg_pool or ARG_NAMES
+    n = rng.randint(0, 3)
+    args = rng.sample(pool, n)
+    parts = [first] if first else []
+    ndef = rng.randint(0, n)
+    for i, a in enumerate(args):
+        s = a
+        if rng.random() < 0.5:
+            s += ": " + rng.choice(["int", "str", "float", "Optional[int]"])
+        if i >= ndef:
+            s += " = " + rng.choice(["1", "'x'", "None", "2.5"]) if ":" in s else "=" + rng.choice(["1", "'x'", "None", "2.5"])
+        parts.append(s)
+    kwonly = []
+    if rng.random() < 0.3:
+        k = rng.choice([p for p in pool if p not in args] or ["kw"])
+        kwonly.append(k + "=" + rng.choice(["0", "None"]))
+        parts += ["*"] + kwonly
+    pad = "    " * indent
+    mk = marker or "zq_body_{}".format(rng.randint(1000, 9999))
+    lines = [pad + "def {}({}):".format(name, ", ".join(parts)),
+             pad + "    {} = {}".format(mk, rng.randint(0, 99)),
+             pad + "    return {}".format(mk)]
+    return lines, args, [k.split("=")[0] for k in kwonly]
+
+
+def gen_module(rng, max_depth=3, want=None):
+    """Generate a module; returns dict(src, locations=[{path, kind, ...features}]).
+    Location kinds: assign, annassign, function, arg, kwarg, class, attr, method, method_arg."""
+    lines = []
+    locs = []
+    if rng.random() < 0.5:
+        lines += ['"""Module zqdoc docstring', "", "second line", '"""', ""]
+    lines += rng.sample(["import os", "import sys", "from typing import Optional, List", "import json"], rng.randint(0, 3))
+    lines.append("")
+    used = set()
+
+    def uniq(pool):
+        cands = [n for n in pool if n not in used]
+        n = rng.choice(cands) if cands else "{}_{}".format(rng.choice(pool), rng.randint(10, 99))
+        return n
+
+    state = {"funcs_seen_module": 0}
+
+    def emit_assign(prefix, indent, scope_names, in_class):
+        nm = uniq(MOD_NAMES)
+        scope_names.add(nm)
+        pad = "    " * indent
+        if rng.random() < 0.6:
+            lines.append(pad + "{}: {} = {}".format(nm, rng.choice(["int", "str", "Optional[int]"]), rng.choice(["1", "'v'", "None"])))
+            kind = "annassign"
+        else:
+            lines.append(pad + "{} = {}".format(nm, rng.choice(["1", "'v'", "[1, 2]"])))
+            kind = "assign"
+        locs.append({"path": prefix + [nm], "kind": "attr_" + kind if in_class else kind, "lineno": len(lines)})
+
+    def emit_function(prefix, indent, in_class, arg_pool=None):
+        nm = rng.choice(FN_NAMES) if rng.random() < 0.5 else uniq(FN_NAMES)
+        first = None
+        if in_class and rng.random() < 0.8:
+            first = rng.choice(["self", "self", "cls"])
+        start = len(lines) + 1
+        fl, args, kwonly = _fn_src(rng, nm, first, indent, arg_pool)
+        lines.extend(fl)
+        locs.append({"path": prefix + [nm], "kind": "method" if in_class else "function", "lineno": start})
+        for a in args:
+            locs.append({"path": prefix + [nm, a], "kind": "method_arg" if in_class else "arg", "lineno": start})
+        for a in kwonly:
+            locs.append({"path": prefix + [nm, a], "kind": "method_kwarg" if in_class else "kwarg", "lineno": start})
+
+    def emit_class(prefix, indent, depth):
+        nm = uniq(CLS_NAMES)
+        used.add(nm)
+        pad = "    " * indent
+        start = len(lines) + 1
+        lines.append(pad + "class {}(object):".format(nm))
+        if rng.random() < 0.5:
+            lines.append(pad + '    """Class zqdoc {}"""'.format(nm))
+        locs.append({"path": prefix + [nm], "kind": "class", "lineno": start})
+        members = rng.randint(1, 4)
+        names = set()
+        for _ in range(members):
+            r = rng.random()
+            if r < 0.4:
+                emit_assign(prefix + [nm], indent + 1, names, True)
+            elif r < 0.85 or depth >= max_depth:
+                emit_function(prefix + [nm], indent + 1, True)
+            else:
+                emit_class(prefix + [nm], indent + 1, depth + 1)
+        lines.append("")
+
+    n_top = rng.randint(2, 6)
+    top_names = set()
+    for _ in range(n_top):
+        r = rng.random()
+        if r < 0.3:
+            emit_assign([], 0, top_names, False)
+        elif r < 0.6:
+            emit_function([], 0, False)
+            lines.append("")
+        else:
+            emit_class([], 0, 1)
+    if rng.random() < 0.3:
+        lines += ["if __name__ == '__main__':", "    print('zq_main')"]
+    src = "\n".join(lines)
+    if rng.random() < 0.8:
+        src += "\n"
+    # de-duplicate paths: a path that occurs twice is ambiguous by construction -> keep first, flag
+    seen = {}
+    for l in locs:
+        key = ".".join(l["path"])
+        l["dup"] = key in seen
+        seen.setdefault(key, l)
+    return {"src": src, "locations": locs}
